@@ -20,21 +20,32 @@ function permutations(arr) {
   return out
 }
 
-function genGroup(rng, k) {
+/** kind: 'std' (every file may carry an inline module, plus k external scripts), 'inline-one' (no external
+ *  scripts; exactly one file has an inline <wxs>: whether the script runtime is emitted must not depend on
+ *  where that file sits in the insertion order), 'no-scripts'. */
+function genGroup(rng, k, kind = 'std') {
   const files = []
   const scripts = []
+  const inlineAt = rng.int(k)
+  const PATHS = ['a', 'b/c', 'd', 'b/e', 'f/g/h', 'z']
   for (let i = 0; i < k; i++) {
-    const fs_ = genFileSet(rng, { withModule: rng.bool(0.5), withInclude: false, maxDepth: 2 })
-    const path = ['a', 'b/c', 'd', 'b/e', 'f/g/h', 'z'][i]
+    const withModule = kind === 'std' ? rng.bool(0.5) : kind === 'inline-one' ? i === inlineAt : false
+    const fs_ = genFileSet(rng, { withModule, withInclude: false, maxDepth: 2 })
+    const path = PATHS[i]
     let src
-    try { src = M.printFile(fs_.files[fs_.main], { rng }) } catch (e) { src = '<v a="{{a}}" b="{{b}}" c="{{c}}" d="{{d}}" e="{{e}}">{{f}}{{g}}</v>' }
+    try { src = M.printFile(fs_.files[fs_.main], { rng }) } catch (e) { src = (withModule ? '<wxs module="m">exports.x = 1</wxs>' : '') + '<v a="{{a}}" b="{{b}}" c="{{c}}" d="{{d}}" e="{{e}}">{{f}}{{g}}</v>' }
     // many data fields so that the binding-map initialiser `A={...}` has many keys
     src += `<q a="{{f1}}" b="{{f2}}" c="{{f3}}" d="{{f4}}" e="{{f5}}" f="{{f6}}" g="{{f7}}" h="{{f8}}">{{f9}}{{f10}}{{f11}}{{f12}}</q>`
-    if (i > 0) src = `<import src="/${['a', 'b/c', 'd', 'b/e', 'f/g/h', 'z'][i - 1]}"/>` + src
+    // several distinct names wherever the compiler collects names into a set or map before emitting them
+    src += `<c generic:g1="x" generic:g2="y" generic:g3="z"><d slot:item slot:index slot:extra slot:aa slot:bb slot:cc="k">{{item}}{{index}}{{extra}}{{aa}}{{bb}}{{k}}</d><e slot:zz slot:aa>{{zz}}{{aa}}</e></c>`
+    src += `<template name="n1"><i1/></template><template name="n2"><i2/></template><template name="n3"><i3/></template><template name="n0"><i0/></template><template is="n2"/>`
+    if (kind === 'std') src += `<wxs module="w${i}" src="/s/${i}"/><wxs module="v${i}" src="/s/${(i + 1) % k}"/>{{w${i}.v}}{{v${i}.v}}`
+    if (i > 0) src = `<import src="/${PATHS[i - 1]}"/>` + src
+    if (i > 1) src = `<import src="/${PATHS[i - 2]}"/>` + src
     files.push([path, src])
-    scripts.push(['s/' + i, `exports.v = ${i}`])
+    if (kind === 'std') scripts.push(['s/' + i, `exports.v = ${i}`])
   }
-  return { files, scripts }
+  return { files, scripts, kind }
 }
 
 export async function run(ctx) {
@@ -43,7 +54,7 @@ export async function run(ctx) {
   const P = tier === 'thorough' ? 8 : 6
   const NG = tier === 'thorough' ? 24 : 6
   const groups = []
-  for (let g = 0; g < NG; g++) groups.push(genGroup(new Rng(rng.u32()), g % 3 === 0 ? 2 : K))
+  for (let g = 0; g < NG; g++) groups.push(genGroup(new Rng(rng.u32()), g % 3 === 0 ? 2 : g % 3 === 1 ? 3 : K, ['std', 'inline-one', 'std', 'no-scripts', 'inline-one', 'std'][g % 6]))
   const want = { gen: true, groups: true, wx: true, runtime: true, globals: true, all_scripts: true }
   // observations[g][api] = Map(hash -> {n, sample, order})
   const obs = groups.map(() => ({}))
@@ -64,8 +75,11 @@ export async function run(ctx) {
       mine.forEach((order, oi) => {
         const files = order.map((i) => grp.files[i])
         const scripts = (oi + p) % 2 ? grp.scripts.slice().reverse() : grp.scripts
-        const split = (oi + p) % 3 === 0 && files.length > 1 ? 1 + ((oi + p) % (files.length - 1)) : undefined
-        cases.push({ id: cases.length, g, files, scripts, split, script_split: split !== undefined ? (oi % (scripts.length + 1)) : undefined, want, how: { process: p, order, split } })
+        // import_group splits: any cut, including "all templates in the imported group" (0) and "the imported
+        // group holds scripts only" (files.length)
+        const split = (oi + p) % 3 === 0 ? (oi + p + ctx.shard) % (files.length + 1) : undefined
+        const script_split = split === undefined ? undefined : split === files.length ? 0 : (oi % (scripts.length + 1))
+        cases.push({ id: cases.length, g, files, scripts, split, script_split, want, how: { process: p, order, split, script_split } })
       })
     })
     const res = gevBatch('tmpl', cases.map(({ g, how, ...c }) => c))
